@@ -80,10 +80,15 @@ def check_full(case, e, ic, out, name):
             return [Failure(name + ':full:time-grid', 'times %r...; expected %r...' % (t[:4].tolist(), wt[:4].tolist()))]
     except Exception as ex:
         return [Failure(name + ':full:shape', 'cannot read times from the full-data output: %r' % (ex,))]
+    perm = case.get('nodelist_perm')
     for key, pos in e.layout.items():
         if key.startswith('_'):
             continue
         want = np.asarray(ac.expected_aux(ic, key), dtype=float)
+        if perm and key in ('Ss', 'Is', 'Rs'):
+            want = want[perm]                       # rows follow the caller's nodelist
+        elif perm and key in ('XY', 'XX'):
+            want = want[np.ix_(perm, perm)]
         if pos == 'any2d':
             ok = False
             for x in out[1:]:
@@ -165,6 +170,8 @@ def prop_entry(case):
                     break
         except Exception as ex:
             pass   # the direct solver's own failures are reported when it is the generated entry
+    if case.get('nodelist_perm'):
+        classes.append('explicit-nodelist')
     nt = in_domain and ((case['mode'] == 'sets' and ic.R0 > 0) or case['tmin'] != 0 or bool(e.layout))
     return Result(fails, nontrivial=nt, classes=classes + ([] if in_domain else ['outside-asserted-domain']))
 
